@@ -7,3 +7,6 @@ import VibeProof.Props.C16
 #print axioms VibeProof.C16.C16_full_of_C17_delete
 #print axioms VibeProof.C16.C16_delete_all_counterexample
 #print axioms VibeProof.C16.C16_inclusive_end_counterexample
+#print axioms VibeProof.C16.C16_simulation
+#print axioms VibeProof.C16.C16_history
+#print axioms VibeProof.C16.C16_spill
